@@ -88,28 +88,28 @@ class Ctx:
         return a
 
     # ---- results
-    def _add(self, status, instance, body, msg, line=None, details=None, props=None, nontrivial=True):
+    def _add(self, status, instance, body, msg, line=None, details=None, props=None, nontrivial=True, fnkey=None):
         r = Result(self.current.id, instance, status,
-                   body.key if body is not None else '-',
+                   fnkey if fnkey is not None else (body.key if body is not None else '-'),
                    body.file if body is not None else '-',
                    line if line is not None else (body.line if body is not None else 0),
                    msg, details, props, nontrivial)
         self.results.append(r)
         return r
 
-    def ok(self, instance, body, msg, line=None, details=None, props=None, nontrivial=True):
-        return self._add('ok', instance, body, msg, line, details, props, nontrivial)
+    def ok(self, instance, body, msg, line=None, details=None, props=None, nontrivial=True, fnkey=None):
+        return self._add('ok', instance, body, msg, line, details, props, nontrivial, fnkey)
 
-    def fail(self, instance, body, msg, line=None, details=None, props=None):
-        return self._add('violation', instance, body, msg, line, details, props)
+    def fail(self, instance, body, msg, line=None, details=None, props=None, fnkey=None):
+        return self._add('violation', instance, body, msg, line, details, props, True, fnkey)
 
-    def shape(self, instance, body, msg, line=None, details=None, props=None):
-        return self._add('shape', instance, body, 'expected shape not found: ' + msg, line, details, props)
+    def shape(self, instance, body, msg, line=None, details=None, props=None, fnkey=None):
+        return self._add('shape', instance, body, 'expected shape not found: ' + msg, line, details, props, True, fnkey)
 
-    def check(self, cond, instance, body, ok_msg, fail_msg, line=None, details=None, props=None, nontrivial=True):
+    def check(self, cond, instance, body, ok_msg, fail_msg, line=None, details=None, props=None, nontrivial=True, fnkey=None):
         if cond:
-            return self.ok(instance, body, ok_msg, line, details, props, nontrivial)
-        return self.fail(instance, body, fail_msg, line, details, props)
+            return self.ok(instance, body, ok_msg, line, details, props, nontrivial, fnkey)
+        return self.fail(instance, body, fail_msg, line, details, props, fnkey)
 
 
 def run_rules(ctx, prop=None, only=None):
@@ -148,7 +148,7 @@ def load_known():
         line = line.strip()
         if not line or line.startswith('#'):
             continue
-        m = re.match(r'known:\s+property=(\S+)\s+key=(\S+)\s+(.*)$', line)
+        m = re.match(r'known:\s+property=(\S+)\s+key="([^"]+)"\s+(.*)$', line)
         if m:
             known[(m.group(1), m.group(2))] = m.group(3)
             continue
